@@ -12,9 +12,14 @@ Docs == [
   namedA    |-> [parses |-> TRUE,  valid |-> TRUE,  ops |-> {"A"},      needs |-> "",  errs |-> {}, sub |-> FALSE, opt |-> FALSE],
   twoOps    |-> [parses |-> TRUE,  valid |-> TRUE,  ops |-> {"A", "B"}, needs |-> "",  errs |-> {}, sub |-> FALSE, opt |-> FALSE],
   needsVar  |-> [parses |-> TRUE,  valid |-> TRUE,  ops |-> {"A"},      needs |-> "v", errs |-> {}, sub |-> FALSE, opt |-> FALSE],
+  \* a required variable of an ENUM type (values are looked up by name: JSON arrays and objects are not names)
+  needsEnum |-> [parses |-> TRUE,  valid |-> TRUE,  ops |-> {"A"},      needs |-> "v", errs |-> {}, sub |-> FALSE, opt |-> FALSE],
   syntaxErr |-> [parses |-> FALSE, valid |-> FALSE, ops |-> {},         needs |-> "",  errs |-> {}, sub |-> FALSE, opt |-> FALSE],
   syntaxEsc |-> [parses |-> FALSE, valid |-> FALSE, ops |-> {},         needs |-> "",  errs |-> {}, sub |-> FALSE, opt |-> FALSE],
   invalid   |-> [parses |-> TRUE,  valid |-> FALSE, ops |-> {""},       needs |-> "",  errs |-> {}, sub |-> FALSE, opt |-> FALSE],
+  \* the operation of `invalid` written on ONE line: the same operation in another layout, served by the same schema object -
+  \* every response locates its error in the text that was submitted with it
+  invalidWide |-> [parses |-> TRUE,  valid |-> FALSE, ops |-> {""},       needs |-> "",  errs |-> {}, sub |-> FALSE, opt |-> FALSE],
   invalidCR |-> [parses |-> TRUE,  valid |-> FALSE, ops |-> {""},       needs |-> "",  errs |-> {}, sub |-> FALSE, opt |-> FALSE],
   failing   |-> [parses |-> TRUE,  valid |-> TRUE,  ops |-> {""},       needs |-> "",  errs |-> {"nn", "err", "items/0/nnitem", "items/2/nnitem", "items/1/erritem"}, sub |-> FALSE, opt |-> FALSE],
   listArgs  |-> [parses |-> TRUE,  valid |-> TRUE,  ops |-> {"A"},      needs |-> "",  errs |-> {}, sub |-> FALSE, opt |-> FALSE],   \* execution-time argument coercion under a list: only the generic clauses apply
@@ -31,11 +36,11 @@ Docs == [
 ]
 DocIds == DOMAIN Docs
 OpNames == {"", "A", "B", "X"}          \* "" = no operation name supplied
-VarPayloads == {"none", "ok", "wrongtype", "null"}
+VarPayloads == {"none", "ok", "wrongtype", "null", "list", "object"}      \* list / object: a JSON array / object where a scalar or enum is declared
 VARIABLES doc, opname, vars
 v == <<doc, opname, vars>>
 \* (Boolean variables take any JSON value - scalar leniency, Appendix B.9 - so "wrongtype" says nothing about the opt documents)
-Init == doc \in DocIds /\ opname \in OpNames /\ vars \in VarPayloads /\ (Docs[doc].opt => vars # "wrongtype")
+Init == doc \in DocIds /\ opname \in OpNames /\ vars \in VarPayloads /\ (Docs[doc].opt => vars \notin {"wrongtype", "list", "object"})
 Next == FALSE /\ UNCHANGED v
 Spec == Init /\ [][Next]_v
 D == Docs[doc]
